@@ -11,6 +11,7 @@ CONSTANTS
  Cancels = FALSE
  Failures = FALSE
  Timeouts = TRUE
+ Resumes = FALSE
  Evictions = FALSE
 CONSTRAINT Bound
 INVARIANT Inv_C06
